@@ -333,8 +333,24 @@ def check_and_load_args(args, parser):
         parser.print_usage()
         exit(-1)
 
+    if not args.resume:
+        remove_stale_locks(args)
     save_params(args)
     return args
+
+
+def remove_stale_locks(args):
+    # A fresh (not --resume) start in a re-used output folder: stage locks of an earlier run must be gone BEFORE .params is
+    # rewritten, otherwise a --resume of this run (killed before it reaches its own clean-up of those locks) trusts them.
+    stale = []
+    for sample in args.input_data.samples:
+        for suffix in ["_lock", "_collected", "_processed"]:
+            stale += glob.glob(os.path.join(sample.aux_dir, "*" + suffix))
+    if args.read_assignments:
+        stale += glob.glob(args.read_assignments[0] + "_*_processed")
+    for f in stale:
+        if os.path.isfile(f):
+            os.remove(f)
 
 
 def load_previous_run(args):
